@@ -23,7 +23,20 @@ func c11Gen(rng *rand.Rand, idx int, thorough bool) c11Scenario {
 	sc := c11Scenario{Idx: idx, Cont: 1 + rng.IntN(8)}
 	g := NewCmdGen(rng)
 	n := 1 + rng.IntN(15)
-	for i := 0; i < n; i++ {
+	if idx%4 == 2 {
+		// skeleton aimed at the two sides of a service having different target options: deploy,
+		// rollout deploy, split, then a redeploy that changes exactly one option; restart anywhere
+		d := g.Deploy("s0")
+		d.Hosts, d.TLS, d.Prefixes = []string{"h0.example"}, "", nil
+		g.last["s0"] = d
+		g.exists["s0"], g.rollout["s0"] = true, true
+		sc.History = append(sc.History, d,
+			Cmd{Kind: "rollout-deploy", Svc: "s0", Targets: g.targets("s0", "r"), DeployTO: 5 * time.Second, DrainTO: time.Second},
+			Cmd{Kind: "rollout-set", Svc: "s0", Pct: pick(rng, []int{100, 100, 0}), Allow: []string{"u1", "alpha"}},
+			g.Tweak("s0"))
+		n = len(sc.History) + rng.IntN(4)
+	}
+	for i := len(sc.History); i < n; i++ {
 		c := g.Next()
 		if i == 0 {
 			c = g.Deploy("s0")
@@ -31,6 +44,7 @@ func c11Gen(rng *rand.Rand, idx int, thorough bool) c11Scenario {
 		}
 		sc.History = append(sc.History, c)
 	}
+	n = len(sc.History)
 	if thorough {
 		for k := 0; k < n; k++ {
 			sc.Points = append(sc.Points, k)
